@@ -110,6 +110,12 @@ MUTANTS = [
     ("C11", "SubstringType", "line/edge/gfa2/alignment_type.py", "    if gfapy.isfirstpos(begpos):\n      if gfapy.isfirstpos(endpos):\n        return (\"pfx\", True)", "    if gfapy.isfirstpos(begpos):\n      if gfapy.isfirstpos(endpos):\n        return (\"sfx\", True)"),
     ("C06", "LinkFromCoords", "line/edge/gfa1/to_gfa2.py", "    line = getattr(self, field)", "    line = self.to_segment"),
     ("C01", "WriterToList", "line/common/writer.py", "    for fn in self.tagnames:", "    for fn in self.tagnames[1:]:"),
+    ("C11", "OtherOrientedSegment", "line/edge/gfa1/other.py", "    if (self.oriented_from == oriented_segment):\n      return self.oriented_to", "    if (self.oriented_from == oriented_segment):\n      return self.oriented_from"),
+    ("C11", "OtherOrientedSegment", "line/edge/gfa1/other.py", "    elif (self.oriented_to == oriented_segment):\n      return self.oriented_from\n    elif tolerant:", "    elif tolerant:"),
+    ("C12", "OtherOrientedSegment", "line/edge/gfa1/other.py", "    elif (self.oriented_to == oriented_segment):\n      return self.oriented_from\n    elif tolerant:\n      return None", "    elif (self.oriented_to == oriented_segment):\n      return self.oriented_from\n    elif not tolerant:\n      return None"),
+    ("C12", "Canonicize", "line/edge/link/canonical.py", "    if not self.is_canonical():\n      return self.complement()", "    if self.is_canonical():\n      return self.complement()"),
+    ("C06", "ContainmentRpos", "line/edge/containment/pos.py", "    return self.pos + self.overlap.length_on_reference()", "    return self.pos + self.overlap.length_on_reference() - 1"),
+    ("C06", "ContainmentRpos", "line/edge/containment/pos.py", "    if isinstance(self.overlap, gfapy.Placeholder):", "    if isinstance(self.overlap, gfapy.CIGAR):"),
 ]
 
 
